@@ -11,6 +11,7 @@ VERIF = '/verif'
 COQ = os.path.join(VERIF, 'coq')
 BUILD = os.path.join(VERIF, 'build')
 REPO = '/repo'
+REPO_SRC = os.environ.get('VERIF_REPO_SRC', '/repo/src')   # where the stockpyl package under test lives
 KNOWN = os.path.join(VERIF, 'KNOWN_FINDINGS.json')
 os.makedirs(BUILD, exist_ok=True)
 
@@ -109,6 +110,8 @@ def coq_make(targets=(), jobs=16, timeout=3000):
     with _Lock():
         mk = os.path.join(COQ, 'Makefile')
         cp = os.path.join(COQ, '_CoqProject')
+        import mkcoqproject
+        mkcoqproject.main()
         if (not os.path.exists(mk)) or os.path.getmtime(mk) < os.path.getmtime(cp):
             rc, out, _ = _run(['coq_makefile', '-f', '_CoqProject', '-o', 'Makefile'], cwd=COQ, timeout=120)
             if rc != 0:
